@@ -33,6 +33,14 @@ def canon (l : List Nat) : String :=
 def genBytes (len seed : Nat) : List Nat :=
   (List.range len).map fun i => (seed * 31 + i * 7 + (i / 256) * 13) % 256
 
+/-- FNV-1a of `genBytes len seed` without building the list -/
+def fnvGen (len seed : Nat) : UInt64 := Id.run do
+  let mut h : UInt64 := 0xcbf29ce484222325
+  for i in [0:len] do
+    let b := (seed * 31 + i * 7 + (i / 256) * 13) % 256
+    h := (h ^^^ b.toUInt64) * 0x100000001b3
+  return h
+
 /-- one term of the byte notation: `x<hex>` or `r<len>:<seed>` -/
 def parseTerm (s : String) : List Nat :=
   match s.toList with
